@@ -2,6 +2,7 @@ from collections import OrderedDict
 import enum
 import json
 import logging
+import re
 from pathlib import Path, PosixPath, WindowsPath
 from typing import Any, AnyStr, Callable, IO, List, Optional, Union, cast
 from typing_extensions import Protocol, Type
@@ -17,6 +18,25 @@ from yatiml.util import is_string_like
 
 
 logger = logging.getLogger(__name__)
+
+
+_yaml12_float_regex = re.compile(
+        r'^(?:'
+        # sign
+        r'[-+]?'
+        # content
+        r'(?:'
+        # float numbers
+        r'  (?:[0-9]+[eE][-+]?[0-9]+'
+        r'  |[0-9]+\.([eE][-+]?[0-9]+)?'
+        r'  |[0-9]*\.[0-9]+([eE][-+]?[0-9]+)?'
+        r'  )'
+        # infinity
+        r'|\.(?:inf|Inf|INF)'
+        # not a number
+        r'|\.(?:nan|NaN|NAN)'
+        r'))$', re.X)
+"""What the Loader reads as a float, see Loader.__patch_floats()."""
 
 
 class JsonDumperState(enum.Enum):
@@ -56,6 +76,16 @@ class Dumper(yaml.SafeDumper):
                 self, stream, default_style, default_flow_style, canonical,
                 indent, width, allow_unicode, line_break, encoding,
                 explicit_start, explicit_end, version, tags, False)
+
+        # The loader reads floats by the YAML 1.2 rules, so a string that
+        # looks like a YAML 1.2 float must be quoted, also if it is not a
+        # YAML 1.1 float (1e5, +.1).
+        self.yaml_implicit_resolvers = {
+                first: list(resolvers)
+                for first, resolvers in self.yaml_implicit_resolvers.items()}
+        for first in '-+0123456789.':
+            self.yaml_implicit_resolvers.setdefault(first, []).append(
+                    ('tag:yaml.org,2002:float', _yaml12_float_regex))
 
         self._json_state = [JsonDumperState.NONE]
         self._cur_indent = 0
